@@ -22,6 +22,7 @@ if TYPE_CHECKING:
     from enum import Enum
 
     from sdc11073.consumer.consumerimpl import SdcConsumer
+    from sdc11073.mdib.descriptorcontainers import AbstractDescriptorContainer
     from sdc11073.mdib.entityprotocol import EntityGetterProtocol
     from sdc11073.mdib.statecontainers import (
         AbstractContextStateContainer,
@@ -374,8 +375,8 @@ class ConsumerMdib(mdibbase.MdibBase):
     @staticmethod
     def _check_same_type(
         report_type: str,
-        old_container: AbstractStateContainer | None,
-        new_container: AbstractStateContainer,
+        old_container: AbstractStateContainer | AbstractDescriptorContainer | None,
+        new_container: AbstractStateContainer | AbstractDescriptorContainer,
     ):
         """Raise ValueError if new_container shall update a container of another type.
 
@@ -383,8 +384,8 @@ class ConsumerMdib(mdibbase.MdibBase):
         state in mdib.
         """
         if old_container is not None and old_container.NODETYPE != new_container.NODETYPE:
-            msg = (f'{report_type}: state "{new_container.DescriptorHandle}" is of type {new_container.NODETYPE}, '
-                   f'expected {old_container.NODETYPE}')
+            handle = getattr(new_container, 'DescriptorHandle', None) or getattr(new_container, 'Handle', None)
+            msg = f'{report_type}: "{handle}" is of type {new_container.NODETYPE}, expected {old_container.NODETYPE}'
             raise ValueError(msg)
 
     def _update_from_states_report(
@@ -748,6 +749,22 @@ class ConsumerMdib(mdibbase.MdibBase):
         try:
             dmt = self.sdc_definitions.data_model.msg_types.DescriptionModificationType
             if self._can_accept_mdib_version(mdib_version_group.mdib_version, 'descriptors'):
+                # a report is applied completely or not at all: check all updates before the first one is applied
+                for report_part in report.ReportPart:
+                    if report_part.ModificationType != dmt.UPDATE:
+                        continue
+                    for descriptor_container in report_part.Descriptor:
+                        self._check_same_type(
+                            'descriptors',
+                            self.descriptions.handle.get_one(descriptor_container.Handle, allow_none=True),
+                            descriptor_container,
+                        )
+                    for state_container in report_part.State:
+                        if state_container.is_context_state:
+                            old = self.context_states.handle.get_one(state_container.Handle, allow_none=True)
+                        else:
+                            old = self.states.descriptor_handle.get_one(state_container.DescriptorHandle, allow_none=True)
+                        self._check_same_type('descriptors', old, state_container)
                 for report_part in report.ReportPart:
                     modification_type = report_part.ModificationType
                     if modification_type == dmt.CREATE:
